@@ -12,6 +12,7 @@ import (
 	"context"
 	"errors"
 	"fmt"
+	"os"
 	"sort"
 	"strings"
 	"sync"
@@ -19,6 +20,8 @@ import (
 	"testing/synctest"
 	"time"
 
+	"github.com/postalsys/muti-metroo/internal/agent"
+	"github.com/postalsys/muti-metroo/internal/config"
 	"github.com/postalsys/muti-metroo/internal/peer"
 	"github.com/postalsys/muti-metroo/internal/transport"
 	"github.com/postalsys/muti-metroo/verifharness/peerfam"
@@ -137,6 +140,8 @@ func runScenario(t *testing.T, sc scenario) (obs observed, fails []failure) {
 
 		var r *peer.Reconnector
 		var m *peer.Manager
+		var ag *agent.Agent
+		scriptPaused := false
 		live := make([]*peerfam.Conn, sc.NAddr)
 		idx := map[string]int{}
 		for a := 0; a < sc.NAddr; a++ {
@@ -168,7 +173,9 @@ func runScenario(t *testing.T, sc scenario) (obs observed, fails []failure) {
 		begin := func(addr string) *flight {
 			a := idx[addr]
 			s := now()
-			paused := r.IsPaused()
+			// "paused" is what the script did (Pause / DisconnectAll ... Resume), not only what the
+			// implementation's flag says: a Pause that the implementation skipped must be noticed
+			paused := r.IsPaused() || scriptPaused
 			mu.Lock()
 			defer mu.Unlock()
 			f := &flight{a: a, start: s, seq: seq, epoch: epoch[a], ch: make(chan bool)}
@@ -202,7 +209,7 @@ func runScenario(t *testing.T, sc scenario) (obs observed, fails []failure) {
 			return f
 		}
 
-		if sc.Mode == "manager" {
+		if sc.Mode == "manager" || sc.Mode == "agent" {
 			tr := &peerfam.Transport{DialFn: func(ctx context.Context, addr string) (transport.PeerConn, error) {
 				f := begin(addr)
 				if <-f.ch {
@@ -216,14 +223,44 @@ func runScenario(t *testing.T, sc scenario) (obs observed, fails []failure) {
 				}
 				return nil, errFail
 			}}
-			mcfg := peer.DefaultManagerConfig(peerfam.AgentIDOf(200), tr)
-			mcfg.ReconnectConfig = sc.Cfg.reconnectConfig()
-			mcfg.KeepaliveJitter = 0
-			mcfg.KeepaliveInterval = 100000 * time.Hour
-			mcfg.HandshakeTimeout = 100000 * time.Hour
-			m = peer.NewManager(mcfg)
-			for a := 0; a < sc.NAddr; a++ {
-				m.AddPeer(peer.PeerInfo{Address: addrName(a), ExpectedID: peerfam.AgentIDOf(a), Persistent: true})
+			if sc.Mode == "agent" {
+				// the whole plumbing: settings -> agent.New -> peer.Manager -> Reconnector. Every numeric
+				// connection setting gets a value of its own so that a mixed-up field shows.
+				cfg := config.Default()
+				cfg.Agent.DataDir = dataDir
+				cfg.Agent.LogLevel = "error"
+				cfg.UDP.Enabled = false
+				cfg.ICMP.Enabled = false
+				cfg.SOCKS5.Enabled = false
+				cfg.HTTP.Enabled = false
+				cfg.Connections.IdleThreshold = 100000*time.Hour + 7*time.Second
+				cfg.Connections.Timeout = 13 * time.Second
+				cfg.Connections.KeepaliveJitter = 0.75
+				rc := sc.Cfg.reconnectConfig()
+				cfg.Connections.Reconnect = config.ReconnectConfig{InitialDelay: rc.InitialDelay, MaxDelay: rc.MaxDelay,
+					Multiplier: rc.Multiplier, Jitter: rc.Jitter, MaxRetries: rc.MaxAttempts}
+				var err error
+				ag, err = agent.New(cfg)
+				if err != nil {
+					panic(err)
+				}
+				m = ag.VerifPeerfamManager()
+				if got := m.VerifReconnector().VerifConfig(); got != rc {
+					fail("reconnect-settings-not-applied", "connections.reconnect settings %+v reach the reconnector as %+v", rc, got)
+				}
+				for a := 0; a < sc.NAddr; a++ {
+					m.AddPeer(peer.PeerInfo{Address: addrName(a), ExpectedID: peerfam.AgentIDOf(a), Persistent: true, Transport: tr})
+				}
+			} else {
+				mcfg := peer.DefaultManagerConfig(peerfam.AgentIDOf(200), tr)
+				mcfg.ReconnectConfig = sc.Cfg.reconnectConfig()
+				mcfg.KeepaliveJitter = 0
+				mcfg.KeepaliveInterval = 100000 * time.Hour
+				mcfg.HandshakeTimeout = 100000 * time.Hour
+				m = peer.NewManager(mcfg)
+				for a := 0; a < sc.NAddr; a++ {
+					m.AddPeer(peer.PeerInfo{Address: addrName(a), ExpectedID: peerfam.AgentIDOf(a), Persistent: true})
+				}
 			}
 			r = m.VerifReconnector()
 		} else {
@@ -365,12 +402,16 @@ func runScenario(t *testing.T, sc scenario) (obs observed, fails []failure) {
 					resetSeq(f.a) // the implementation gave up (max attempts)
 				}
 			case "pause":
+				if !r.VerifClosed() {
+					scriptPaused = true
+				}
 				if m != nil {
 					m.DisconnectAll()
 				} else {
 					r.Pause()
 				}
 			case "resume":
+				scriptPaused = false
 				r.Resume()
 			case "resetall":
 				r.ResetAll()
@@ -418,7 +459,9 @@ func runScenario(t *testing.T, sc scenario) (obs observed, fails []failure) {
 			f.ch <- false
 			synctest.Wait()
 		}
-		if m != nil {
+		if ag != nil {
+			ag.Stop()
+		} else if m != nil {
 			m.Close()
 		}
 		time.Sleep(time.Duration(sc.Cfg.Max)*4 + time.Hour)
@@ -470,6 +513,16 @@ func witnesses() []scenario {
 			{K: "sched"}, {K: "advhold", D: sec}, {K: "pause"}, {K: "release"}, {K: "adv", D: sec}, {K: "resume"}, {K: "sched"}, {K: "adv", D: sec}}},
 		{Name: "w-stale-timer-after-reschedule", Mode: "reconnector", Cfg: std, NAddr: 1, Ops: []op{
 			{K: "sched"}, {K: "advhold", D: sec}, {K: "sched"}, {K: "release"}, {K: "adv", D: sec}, {K: "reply"}, {K: "adv", D: 2 * sec}}},
+		{Name: "w-stale-timer-after-reset", Mode: "reconnector", Cfg: std, NAddr: 1, Ops: []op{
+			{K: "sched"}, {K: "advhold", D: sec}, {K: "cancel"}, {K: "sched"}, {K: "release"}, {K: "adv", D: sec}, {K: "reply"}, {K: "adv", D: 2 * sec}}},
+		{Name: "w-stale-timer-after-resetall-manager", Mode: "manager", Cfg: std, NAddr: 1, Ops: []op{
+			{K: "sched"}, {K: "advhold", D: sec}, {K: "resetall"}, {K: "sched"}, {K: "release"}, {K: "adv", D: sec}, {K: "reply"}, {K: "adv", D: 2 * sec}}},
+		{Name: "w-sleep-with-no-peer-connected", Mode: "manager", Cfg: std, NAddr: 1, Ops: []op{
+			{K: "sched"}, {K: "pause"}, {K: "adv", D: sec}, {K: "adv", D: 2 * sec}, {K: "resume"}, {K: "sched"}, {K: "adv", D: sec}}},
+		{Name: "w-agent-settings-no-jitter", Mode: "agent", Cfg: std, NAddr: 1, Ops: []op{
+			{K: "sched"}, {K: "adv", D: sec}, {K: "reply"}, {K: "adv", D: 2 * sec}, {K: "reply"}, {K: "adv", D: 4 * sec}, {K: "reply", OK: true}, {K: "adv", D: 5 * sec}, {K: "drop"}, {K: "adv", D: sec}}},
+		{Name: "w-agent-settings-jitter", Mode: "agent", Cfg: cfgT{Initial: 3 * sec, Max: 24 * sec, MulNum: 3, MulDen: 2, JitNum: 1, JitDen: 4, MaxAttempts: 3}, NAddr: 2, Offset: 250, Ops: []op{
+			{K: "sched"}, {K: "sched", A: 1}, {K: "adv", D: 4 * sec}, {K: "reply"}, {K: "reply"}, {K: "adv", D: 6 * sec}, {K: "reply"}, {K: "pause"}, {K: "reply"}, {K: "adv", D: 9 * sec}}},
 		{Name: "w-manager-success-drop", Mode: "manager", Cfg: std, NAddr: 1, Ops: []op{
 			{K: "sched"}, {K: "adv", D: sec}, {K: "reply", OK: true}, {K: "adv", D: 5 * sec}, {K: "drop"}, {K: "adv", D: sec}, {K: "reply", OK: true}}},
 	}
@@ -487,8 +540,11 @@ func genScenario(rd *vh.Rand, i int) scenario {
 	sc := scenario{Name: fmt.Sprintf("gen-%d", i), Mode: "reconnector",
 		Cfg:   cfgT{Initial: ini, Max: mx, MulNum: mul[0], MulDen: mul[1], JitNum: jit[0], JitDen: jit[1], MaxAttempts: rd.Pick(0, 0, 0, 1, 2, 3)},
 		NAddr: rd.Pick(1, 1, 2, 3), Offset: int64(rd.Pick(0, 125, 250, 500, 750, 875))}
-	if rd.Chance(2, 5) {
+	switch rd.Intn(10) {
+	case 0, 1, 2:
 		sc.Mode = "manager"
+	case 3, 4:
+		sc.Mode = "agent"
 	}
 	n := 6 + rd.Intn(22)
 	cur := ini // rough idea of the current delay, to aim time advances at timer boundaries
@@ -564,7 +620,7 @@ func genScenario(rd *vh.Rand, i int) scenario {
 			}
 			sc.Ops = append(sc.Ops, op{K: "release"})
 		default:
-			if sc.Mode == "manager" {
+			if sc.Mode != "reconnector" {
 				sc.Ops = append(sc.Ops, op{K: "drop", A: a})
 			} else {
 				sc.Ops = append(sc.Ops, op{K: "sched", A: a})
@@ -620,16 +676,24 @@ func coqCase(sc scenario, obs observed) string {
 	}
 	c := sc.Cfg
 	return fmt.Sprintf("mkCase %s (mkCfg %s %s %s %s %s %s %s) %s %s\n  %s\n  %s\n  %s",
-		vh.CoqBool(sc.Mode == "manager"),
+		vh.CoqBool(sc.Mode != "reconnector"),
 		vh.CoqZ(c.Initial), vh.CoqZ(c.Max), vh.CoqZ(c.MulNum), vh.CoqZ(c.MulDen), vh.CoqZ(c.JitNum), vh.CoqZ(c.JitDen), vh.CoqZ(int64(c.MaxAttempts)),
 		vh.CoqNat(sc.NAddr), vh.CoqZ(sc.Offset), vh.CoqList(ops), vh.CoqList(snaps), vh.CoqList(lg))
 }
 
 // ---------------------------------------------------------------------------
 
+var dataDir string
+
 func TestVerif(t *testing.T) {
 	c := vh.Start("C31")
 	defer c.Finish()
+	dd, err := os.MkdirTemp("", "c31-agent")
+	if err != nil {
+		panic(err)
+	}
+	dataDir = dd
+	defer os.RemoveAll(dd)
 	c.Res.Rule = "case = one script (Schedule / advance virtual time / answer a blocked attempt ok|fail / Pause / Resume / ResetAll / Cancel / Stop / drop) run on the real " +
 		"peer.Reconnector or peer.Manager in a synctest bubble; observed = bookkeeping after every step + virtual instants of all attempt starts, compared with the model; " +
 		"non-trivial = at least 2 attempts started; distinct = distinct (config, script)"
